@@ -107,8 +107,9 @@ def mkdofpv (pmask : Nat) (tbl : List Row) (nas : SetSpec) (req : Request) (stri
 /-! ### make_uset: the `nasset` column and the coordinate columns -/
 
 /-- the while-loop that spreads per-request-row values over the expanded rows; the same loop
-runs for the `nasset` column (`six v` = six copies of `v`) and for the `x y z` columns (`six v` =
-the location row followed by the five rows of the basic coordinate system). -/
+ran for the `nasset` column before fix a37d9b6 (`six v` = six copies of `v`) and still runs for the
+`x y z` columns (`six v` = the location row followed by the five rows of the basic coordinate
+system). -/
 def spreadG {β : Type} (six : β → List β) : Nat → List (Nat × Nat) → List β → Except Err (List β)
   | 0, _, _ => .ok []
   | _, [], _ => .ok []
@@ -120,7 +121,7 @@ def spreadG {β : Type} (six : β → List β) : Nat → List (Nat × Nat) → L
             .ok (six v ++ t)
         | [] => .error .index
       else if arg = 1 then
-        if vals.length < 6 then .error .value
+        if vals.length < 6 then .error .type     -- pandas: block of another height (TypeError)
         else do
           let t ← spreadG six fuel (rest.drop 5) (vals.drop 6)
           .ok (vals.take 6 ++ t)
@@ -131,8 +132,10 @@ def spreadG {β : Type} (six : β → List β) : Nat → List (Nat × Nat) → L
             .ok (v :: t)
         | [] => .error .index
 
-def spread : Nat → List (Nat × Nat) → List Nat → Except Err (List Nat) :=
-  spreadG (fun v => List.replicate 6 v)
+/-- the `nasset` loop (since fix a37d9b6): every request row is spread over as many expanded rows
+as its component list has digits (`len(str(arg))`; `0` is one digit). -/
+def spreadWords (rows : List (Nat × Nat)) (nas : List Nat) : List Nat :=
+  (rows.zip nas).flatMap fun p => List.replicate (digits p.1.2).length p.2
 
 /-- the request after `_ensure_2cols` (1-D ids get the argument 123456) -/
 def rows2 : Request → List (Nat × Nat)
@@ -158,10 +161,7 @@ def makeUsetWords (req : Request) (edof : List (Nat × Nat)) (nas : List Nat) :
   match nas with
   | [v] => .ok (List.replicate edof.length v)
   | _ => if edof.length = nrows req then .ok nas
-         else do
-           let w ← spread (rows2 req).length (rows2 req) nas
-           -- rows the loop never reaches keep the initial 0
-           .ok (w ++ List.replicate (edof.length - w.length) 0)
+         else .ok (spreadWords (rows2 req) nas)
 
 /-- `make_uset(dof, nasset)`: rows `(id, dof, word)`. -/
 def makeUset (req : Request) (nas : List Nat) : Except Err (List Row) :=
